@@ -62,13 +62,9 @@ void path_split(std::string &dirname, std::string &basename, const std::string &
         return;
     }
 
-    dirname = path.substr(0, found);
+    // Everything up to and including the final separator
+    dirname = path.substr(0, found+1);
     basename = path.substr(found+1);
-
-    if ( dirname[dirname.size()-1] != kPathSep ) {
-        // Preserve the trailing slash
-        dirname.append(1, kPathSep);
-    }
 }
 
 
